@@ -11,6 +11,10 @@ Definition ex_perf : oracle := fun _ r _ _ =>
   match r with Climb => Some (5, 3, 1) | Cruise => Some (5, 0, 1) | Descend => Some (5, -3, 1) end.
 Definition ex_geo : geodesic := fun _ s => (s, 0, 0).
 Definition ex_inside : envelope := fun _ _ _ => true.
+(* a uniform tail wind of 2 *)
+Definition ex_wind : wind := fun _ t => Some (t + 2).
+Lemma ex_wind_valid_on_positive : forall k t g, 0 <= t -> ex_wind k t = Some g -> 0 < g.
+Proof. unfold ex_wind; intros k t g Ht H; inversion H; lra. Qed.
 Definition ex_flight : flight :=
   @mkflight RNum 0 0 10000 0 0 0 1000000 1 1 100 1000000 1 2 2 2.
 
@@ -40,7 +44,7 @@ Definition ex_p0 : pt := @mkpt RNum 1000 0 0 0 60000 5000 0 0 0 0 0 0 0 0.
 
 (* one climb segment over R: the premises of lc_inv are satisfiable and lc_loop returns two points *)
 Example ex_climb : exists l kp kg,
-  @lc_loop RNum ex_perf ex_geo Climb 43 1000 6000 1 0 ex_p0 0 0 = Ok (l, kp, kg) /\ length l = 2%nat.
+  @lc_loop RNum ex_perf ex_geo ex_wind true Climb 43 1000 6000 1000000 1 0 ex_p0 0 0 = Ok (l, kp, kg) /\ length l = 2%nat.
 Proof.
   do 3 eexists.
   cbv - [Rplus Rminus Rmult Rdiv Rinv Ropp sqrt Rltb Rleb Reqb IZR Rabs length].
@@ -48,7 +52,7 @@ Proof.
 Qed.
 
 Example ex_cruise : exists l kp kg,
-  @crz_loop RNum ex_perf ex_geo 1000 2 (@crz_entry RNum 7000 (@mkpt RNum 7000 0 5 3 59000 4000 8000 2000 4 1 0 0 0 0)) 3 1
+  @crz_loop RNum ex_perf ex_geo ex_wind true 1000 1000000 2 (@crz_entry RNum 7000 (@mkpt RNum 7000 0 5 3 59000 4000 8000 2000 4 1 0 0 0 0)) 3 1
     = Ok (l, kp, kg) /\ length l = 2%nat.
 Proof.
   do 3 eexists.
@@ -57,7 +61,7 @@ Proof.
 Qed.
 
 Example ex_descent : exists l kp kg,
-  @lc_loop RNum ex_perf ex_geo Descend 43 7000 (-6000) 1 0 (@mkpt RNum 7000 0 5 0 58000 3000 10000 2400 5 1 0 0 0 0) 5 3
+  @lc_loop RNum ex_perf ex_geo ex_wind false Descend 43 7000 (-6000) 1000000 1 0 (@mkpt RNum 7000 0 5 0 58000 3000 10000 2400 5 1 0 0 0 0) 5 3
     = Ok (l, kp, kg) /\ length l = 2%nat.
 Proof.
   do 3 eexists.
@@ -72,3 +76,6 @@ Proof.
   decide_ifs. reflexivity.
 Qed.
 
+
+Example ex_valid_wind : valid_wind (fun _ _ => Some 200).
+Proof. unfold valid_wind; intros k t g H; inversion H; lra. Qed.
